@@ -358,7 +358,7 @@ def build_patterned_weight(ps, kind, dtype, info, name, leaf=False):
 
 
 def build(spec, kind='real', dtype=None, weight_hook=None, explicit_ids=False, range_domains=False,
-          node_prefix='v', edge_prefix='e', leaf_patterns=False, term_edge_prefix=None):
+          node_prefix='v', edge_prefix='e', leaf_patterns=False, term_edge_prefix=None, start_last=False, ghosts=None):
     """Build an FGG from a spec through the public API.
     weight_hook(name, tensor) -> tensor|PatternedTensor lets callers wrap leaves / patterns.
     Returns (fgg, info) where info has the Node/Edge objects per rule for later inspection."""
@@ -371,7 +371,10 @@ def build(spec, kind='real', dtype=None, weight_hook=None, explicit_ids=False, r
         els[n] = fggs.EdgeLabel(n, [nls[x] for x in t['type']], is_terminal=True)
     for n, ty in spec['nonterminals'].items():
         els[n] = fggs.EdgeLabel(n, [nls[x] for x in ty], is_nonterminal=True)
-    fgg = fggs.FGG(els[spec['start']])
+    # start_last: bottom-up construction -- the grammar is created with another nonterminal as provisional start symbol and the
+    # real start symbol is assigned after all rules were added (label tables and DFS orders then begin elsewhere)
+    others = [r['lhs'] for r in spec['rules'] if r['lhs'] != spec['start']]
+    fgg = fggs.FGG(els[others[-1]] if start_last and others else els[spec['start']])
     info = {'rules': [], 'els': els, 'nls': nls, 'leaves': {}}
     for ri, r in enumerate(spec['rules']):
         g = fggs.Graph()
@@ -388,9 +391,31 @@ def build(spec, kind='real', dtype=None, weight_hook=None, explicit_ids=False, r
                            id=f'{pre}{ri}_{k}' if _explicit(k + 1) else None)
             g.add_edge(ed); edges.append(ed)
         g.ext = [nodes[p] for p in r['ext']]
+        # ghosts: an edit history -- a nonterminal edge that is added to the right-hand side and removed again, either before
+        # or after the rule joins the grammar (the grammar denoted is the one without it)
+        ghost = (ghosts or {}).get(ri) or (ghosts or {}).get(str(ri))
+        gedge = None
+        if ghost:
+            gl = els.get(ghost['label']) or fggs.EdgeLabel(ghost['label'], [], is_nonterminal=True)
+            att = []
+            for nl in gl.node_labels:
+                c = [v for v in nodes if v.label == nl]
+                if not c: att = None; break
+                att.append(c[0])
+            if att is not None:
+                gedge = fggs.Edge(gl, att)
+                g.add_edge(gedge)
+                if ghost['when'] == 'before':
+                    g.remove_edge(gedge)
         rule = fggs.HRGRule(els[r['lhs']], g)
         fgg.add_rule(rule)
+        if gedge is not None and ghost['when'] != 'before':
+            rule.rhs.remove_edge(gedge)
+        if gedge is not None:
+            info.setdefault('ghosts', []).append(ri)
         info['rules'].append({'rule': rule, 'nodes': nodes, 'edges': edges})
+    if start_last and others:
+        fgg.start = els[spec['start']]
     for n in spec['nonterminals']:
         fgg.add_edge_label(els[n])
     for n, size in spec['node_labels'].items():
@@ -411,3 +436,46 @@ def build(spec, kind='real', dtype=None, weight_hook=None, explicit_ids=False, r
         doms = [fgg.domains[x] for x in t['type']]
         fgg.add_factor(els[n], fggs.FiniteFactor(doms, w))
     return fgg, info
+
+
+def inject_dead_rule(draw, spec):
+    """Mutates spec: a *dead* rule (sum-product zero because it uses an unproductive nonterminal of the same SCC) in front of
+    the productive rules of some nonterminal X:   X -> D ... (first rule of X),   D -> X D (D's only rule)."""
+    X = draw(st.sampled_from(spec['rules']))['lhs']
+    tx = list(spec['nonterminals'][X])
+    spec['nonterminals']['D'] = []
+    deadX = {'lhs': X, 'nodes': list(tx), 'ext': list(range(len(tx))), 'edges': [{'label': 'D', 'att': []}]}
+    if spec['terminals'] and draw(st.booleans()):
+        t = draw(st.sampled_from(sorted(spec['terminals'])))
+        nodes = list(tx); att = []
+        for nl in spec['terminals'][t]['type']:
+            c = [j for j, l in enumerate(nodes) if l == nl]
+            if c: att.append(c[0])
+            else: nodes.append(nl); att.append(len(nodes) - 1)
+        deadX['nodes'] = nodes; deadX['edges'].append({'label': t, 'att': att})
+    deadD = {'lhs': 'D', 'nodes': list(tx), 'ext': [], 'edges': [{'label': X, 'att': list(range(len(tx)))}, {'label': 'D', 'att': []}]}
+    first = next(i for i, r in enumerate(spec['rules']) if r['lhs'] == X)
+    spec['rules'] = spec['rules'][:first] + [deadX] + spec['rules'][first:] + [deadD]
+    return spec
+
+
+def inject_nonlinear_tail(draw, spec):
+    """Mutates spec: some self-recursive rule X -> ... X ... gets its X edge duplicated (non-linear recursion) and a fresh
+    terminal, used by no other rule, appended *after* all other edges (X X ... tz). Returns False when no rule qualifies."""
+    cands = [i for i, r in enumerate(spec['rules']) if any(e['label'] == r['lhs'] for e in r['edges'])]
+    if not cands: return False
+    r = spec['rules'][draw(st.sampled_from(cands))]
+    e = next(e for e in r['edges'] if e['label'] == r['lhs'])
+    if sum(1 for x in r['edges'] if x['label'] == r['lhs']) < 2:
+        r['edges'].insert(r['edges'].index(e) + 1, {'label': e['label'], 'att': list(e['att'])})
+    name = 'tz'
+    while name in spec['terminals'] or name in spec['nonterminals']: name += 'z'
+    if r['nodes'] and draw(st.booleans()):
+        j = draw(st.integers(0, len(r['nodes']) - 1))
+        size = spec['node_labels'][r['nodes'][j]]
+        spec['terminals'][name] = {'type': [r['nodes'][j]], 'weights': [draw(st.sampled_from((0.25, 0.5, 1.0))) for _ in range(size)]}
+        r['edges'].append({'label': name, 'att': [j]})
+    else:
+        spec['terminals'][name] = {'type': [], 'weights': draw(st.sampled_from((0.25, 0.5)))}
+        r['edges'].append({'label': name, 'att': []})
+    return True
